@@ -14,7 +14,7 @@ ASSUMPTIONS = [
     "pathspec implements gitignore pattern semantics (it is also what the reference uses for the patterns themselves); os.walk "
     "without followlinks does not descend into symlinked directories; Path.resolve / stat as documented",
     "bounded layer: trees of <= 5 directories (nesting <= 3) and <= 20 files from fixed name pools, symlinks to files and "
-    "directories inside and outside the tree, sizes around the limit, .flowmarkignore at the root",
+    "directories inside and outside the tree, sizes around the limit, .flowmarkignore at the root and / or in its parent",
 ]
 LIMIT = 100
 
@@ -83,6 +83,8 @@ def bounded(tier, seed):
         try:
             fsgen.make_tree(rnd, root, gitignores=False, symlinks=True, toolignore=True, big=True)
             fi = os.path.join(root, ".flowmarkignore")
+            if not os.path.exists(fi):
+                fi = os.path.join(base, ".flowmarkignore")         # the nearest ignore file walking up decides, whatever it contains
             fl = [l for l in open(fi).read().splitlines() if l.strip()] if os.path.exists(fi) else None
             cfg = rnd.choice([{}, {"extend_include": ["*.mdx"]}, {"exclude": ["docs/"]}, {"extend_exclude": ["sub/", "deep/"]},
                               {"files_max_size": LIMIT}, {"files_max_size": 0}, {"include": ["*.txt"]}, {"exclude": []},
@@ -146,6 +148,14 @@ def bounded(tier, seed):
                 expect = [] if (lim and os.path.getsize(f) > lim) else [os.path.realpath(f)]
                 if [str(p) for p in one] != expect:
                     viol.append({"clause": "explicit_file", "input": dict(inp, file=os.path.relpath(f, root)), "got": [str(p) for p in one], "want": expect})
+            # ... also when the file is named through a symbolic link: the size that counts is the file's
+            bl = os.path.join(root, "biglink.md")
+            if os.path.islink(bl):
+                for lim, expect in ((LIMIT, []), (0, [os.path.realpath(bl)]), (250, [os.path.realpath(bl)]), (249, [])):
+                    one = [str(p) for p in FileResolver(FileResolverConfig(respect_gitignore=False, files_max_size=lim)).resolve([bl])]
+                    evals += 1
+                    if one != expect:
+                        viol.append({"clause": "explicit_file", "input": dict(inp, file="biglink.md -> 250-byte file", files_max_size=lim), "got": one, "want": expect})
             # glob results obey the same filters
             with in_dir(root):
                 g = [os.path.relpath(str(p), os.path.realpath(root)) for p in
@@ -166,7 +176,7 @@ def bounded(tier, seed):
             shutil.rmtree(base, ignore_errors=True)
     return {"evaluations": evals, "distinct_nontrivial": len(distinct), "violations": viol, "samples": samples,
             "rule": "seeded trees (directories/files from fixed pools, nesting <= 3, symlinks to a file and a directory outside the tree and "
-                    "to a file inside, file sizes around the limit, a root .flowmarkignore) x 10 settings (incl. multi-segment user exclusions and an empty exclude list, which switches the default exclusions off): traversal result == reference "
+                    "to a file inside, file sizes around the limit, also behind a symbolic link, a .flowmarkignore at the root (sometimes rule-less) and / or above it) x 10 settings (incl. multi-segment user exclusions and an empty exclude list, which switches the default exclusions off): traversal result == reference "
                     "walk written from the property; sorted/distinct/absolute; same result for permuted and duplicated arguments (also two directory arguments, one nested in a directory the outer walk prunes, in both orders), also when files are named again through '..' / relative spellings (no file twice, canonical paths); "
                     "explicit files bypass exclusions but not the size limit; glob results pass the same filters; distinct = distinct "
                     "reference results",
